@@ -27,7 +27,7 @@ def declare(spec):
     ONLYSHRINK = ['implies(old(found_empty(self)), found_empty(self))', SUB, 'self.numprocesses == old(self.numprocesses)', 'self._status == old(self._status)', 'excl',
                   'wf_w(self)', LOGS, 'clock >= old(clock)',
                   prot(exc=('Watcher.processes',)),
-                  "forall(Ref('Watcher'), lambda w: implies(w != self, w.processes == old(w.processes)))"]
+                  "forall(Ref('Watcher'), lambda w: implies(w != self, w.processes == old(w.processes) and len(w.processes) == len(old(w.processes))))"]
     spec.add(Contract(
         'circus.watcher:Watcher.remove_expired_processes', kind='coroutine', rely='held',
         requires=KP_REQ + ['self.max_age_variance >= 0'],
@@ -42,7 +42,7 @@ def declare(spec):
                                   "expired_processes[a] != expired_processes[b]))",
                                   'self.numprocesses == old(self.numprocesses)', 'self._status == old(self._status)',
                                   prot(exc=('Watcher.processes',)),
-                                  "forall(Ref('Watcher'), lambda w: implies(w != self, w.processes == old(w.processes)))"],
+                                  "forall(Ref('Watcher'), lambda w: implies(w != self, w.processes == old(w.processes) and len(w.processes) == len(old(w.processes))))"],
                        fingerprint='for:enumerate(expired_processes)', modifies=['self.processes'])}))
     spec.add(Contract(
         'circus.watcher:Watcher.manage_processes', kind='coroutine', rely='held',
@@ -65,11 +65,17 @@ def declare(spec):
              "len(self.processes) == self.numprocesses)"),
             'self.numprocesses == old(self.numprocesses)', 'excl', 'wf_w(self)', LOGS, 'clock >= old(clock)',
             'found_empty(self)',
+            # C09: a worker that leaves the table without having been terminated by us (found dead) is announced by a
+            # reap event -- otherwise a subscriber keeps counting it as live for ever
+            ('dead-removed-are-reaped',
+             "implies(self._status != 'stopped', forall(INT, lambda k: implies((k in old(self.processes)) and "
+             "not (k in self.processes) and old(self.processes)[k].klog == old(old(self.processes)[k].klog), "
+             "exists(INT, lambda i: length(old(reaplog)) <= i and i < length(reaplog) and ev_pid(reaplog[i]) == k))))"),
         ] + [('protected-%d' % i, c) for i, c in enumerate(prot(exc=(
             'Watcher.processes', 'Watcher._status', 'Watcher.stream_redirector', 'Watcher._found_wids',
             'spawnlog', 'spevlog', 'reaplog', 'K_child')).split(' and '))] + [
             # no other watcher's table is touched
-            "forall(Ref('Watcher'), lambda w: implies(w != self, w.processes == old(w.processes) and "
+            "forall(Ref('Watcher'), lambda w: implies(w != self, w.processes == old(w.processes) and len(w.processes) == len(old(w.processes)) and "
             "w._status == old(w._status)))",
         ],
         raises={'RuntimeError': []},
@@ -86,7 +92,7 @@ def declare(spec):
                 "len(self.processes) <= len(old(self.processes)) and len(self.processes) >= len(old(self.processes)) - loop_i",
                 "implies(mp_pops == old(mp_pops), same_field('Watcher.processes'))", 'mp_pops >= old(mp_pops)',
                 "same_heap(except_=['Watcher.processes', 'K_alive', 'mp_pops'])",
-                "forall(Ref('Watcher'), lambda w: implies(w != self, w.processes == old(w.processes)))",
+                "forall(Ref('Watcher'), lambda w: implies(w != self, w.processes == old(w.processes) and len(w.processes) == len(old(w.processes))))",
                 'kstep()',
             ], fingerprint='for:list(self.processes.values())', modifies=['self.processes', 'K_alive', 'mp_pops']),
             1: Loop(invariant=[
